@@ -423,6 +423,7 @@ TARGETS.append(dict(
         # names, `packet_signature.header_names` = lower-cased packet header names (sets; dataclass plumbing, C09 / C07 tie them)
         "signature.header_names.issubset": lambda fn, a, k, e: ("((s.headers.filter (fun h => !h.optional)).all (fun h => (ph.map fun x => lower x.name).contains (lower h.name)))", "Bool"),
         "signature.absent_headers.intersection": lambda fn, a, k, e: ("(s.absent.filter fun a => (ph.map fun x => lower x.name).contains a)", "List:Bytes"),
+        "signature.absent_headers.isdisjoint": lambda fn, a, k, e: ("(!(s.absent.any fun a => (ph.map fun x => lower x.name).contains a))", "Bool"),
         "headers_match": lambda fn, a, k, e: ("(P0f.Gen.headersMatch s.headers ph)", "Bool"),
     },
     alias="def httpSigMatch (s : HttpSig) (minor : Nat) (ph : List Hdr) : Bool := P0f.httpSigMatch s minor ph\n",
@@ -443,7 +444,7 @@ TARGETS.append(dict(
     module="pyp0f.fingerprint.results.http", func="HTTPResult.__post_init__", file="HttpDishonest", lean="dishonest", import_="P0f.Model.Http", open="P0f P0f.Py",
     pyparams=["self"], params=[("m", "Option HttpRec"), ("ph", "List Hdr")], ret="Bool", lean_ret="Bool",
     env={"self.match": ("m", "Opt:Rec:HttpRec"), "self.packet_signature.software": ("(softwareOf ph)", "Opt:Bytes")},
-    records=HTTP_RECORDS, assignable=("self.dishonest",),
+    records=HTTP_RECORDS, assignable=("self.dishonest",), lean_types={"Bytes": "Bytes", "Rec:HttpRec": "HttpRec"},
     end=lambda fn, env: env["self.dishonest"][0],
     alias="def dishonest (m : Option HttpRec) (ph : List Hdr) : Bool := P0f.dishonest m ph\n",
 ))
@@ -455,7 +456,7 @@ TARGETS.append(dict(
     decorators=("classmethod",), pyparams=["cls", "buffer", "is_syn"], params=[("buf", "List Nat"), ("is_syn", "Bool")],
     ret="Tuple:" + ",".join(t for _, t in OPT_FIELDS), lean_ret="List Nat × QSet × Nat × Nat × Nat × Int",
     env={"buffer": ("buf", "Bytes"), "is_syn": ("is_syn", "Bool")},
-    list_types={"layout": "List:Nat"}, var_types={"i": "Int", "eol_padding_length": "Int"},
+    list_types={"layout": "List:Nat"}, var_types={"i": "Int", "eol_padding_length": "Int"}, lean_types={"Bytes": "List Nat"},
     fuel="(buf.length + 1)",
     calls={"Quirk": _quirk0, "cls": _cls_fields(*OPT_FIELDS)},
     alias="def parseOpts (buf : List Nat) (is_syn : Bool) : List Nat × QSet × Nat × Nat × Nat × Int := P0f.optsTuple (P0f.parseOpts buf is_syn)\n",
